@@ -67,15 +67,15 @@ add("C01", "bounded-exhaustive input-shape exploration (character trees, token-s
     "trusted: wall-clock limits separate slow from hanging (120 s; 900 s for the size families); bounds: alphabets, lengths, depth 64, 64 KiB",
     "DESIGN.md section 4, C01")
 add("C11", "exhaustive exploration of environment answers (hash-iteration orders) with owned seeds and a closure certificate, x insertion orders x histories x repeated calls",
-    "29 colliding projects x insertion orders (quick 6, thorough all 24) x plain / replace histories (interim contents, a validation, the EOL twin of every file) x base keys of fresh threads x repeated validate() calls, plus the same projects in 4 (thorough 16) child processes and a cross-instance stage (every project in a fresh child process after every other project / after all others, earlier parsers dropped or kept alive: process-global and thread-local state); std's hash seeds are owned through an LD_PRELOAD getrandom shim, and seeds are enumerated until every hash container of <= 4 elements has been observed (hook H3) in all its iteration orders at every site (evidence lists observed / possible per site). All outputs of a project must be equal (trees by ==, diagnostic vectors element-wise) and every file's diagnostics ascending in (line, column).",
+    "30 colliding projects x insertion orders (quick 6, thorough all 24) x plain / replace histories (interim contents, a validation, the EOL twin of every file) x base keys of fresh threads x repeated validate() calls, plus the same projects in 4 (thorough 16) child processes and a cross-instance stage (every project in a fresh child process after every other project / after all others, earlier parsers dropped or kept alive: process-global and thread-local state); std's hash seeds are owned through an LD_PRELOAD getrandom shim, and seeds are enumerated until every hash container of <= 4 elements has been observed (hook H3) in all its iteration orders at every site (evidence lists observed / possible per site). All outputs of a project must be equal (trees by ==, diagnostic vectors element-wise) and every file's diagnostics ascending in (line, column).",
     "trusted: getrandom shim (self-tested each run), hook H3 observers; thread schedules are not explored (no synchronisation operations in the library)",
     "DESIGN.md section 4, C11")
 add("C12", "explicit-state exploration of operation histories on the live Parser (cloned per branch) against a fresh parser built from the abstract id -> content map",
-    "Full history trees from the empty parser (alphabet A: 32 operations incl. the CRLF twin of a content, the same item moved to a sub-package, a BOM-prefixed file, a 100 KB file and a non-canonical path, to depth 3 / 4; alphabet B: 11 operations to depth 4 / 6) and all suffixes of length 2 from 240 (thorough all 864) canonical abstract states, thorough also all suffixes of length 3 from the states with <= 2 files; after every transition validate() of the live object must equal validate() of a fresh parser holding the abstract map, and add_file must fail exactly when the model says so.",
+    "Full history trees from the empty parser (alphabet A: 34 operations incl. a blank file on disk, a recovered-then-fatal content, the CRLF twin of a content, the same item moved to a sub-package, a BOM-prefixed file, a 100 KB file and a non-canonical path, to depth 3 / 4; alphabet B: 11 operations to depth 4 / 6) and all suffixes of length 2 from 240 (thorough all 864) canonical abstract states, thorough also all suffixes of length 3 from the states with <= 2 files; after every transition validate() of the live object must equal validate() of a fresh parser holding the abstract map, and add_file must fail exactly when the model says so.",
     "trusted: hook H4 (derived Clone) for branching - every violation is re-confirmed by a from-scratch replay without clones; abstract states with one key in two kinds are explored like all others",
     "DESIGN.md section 4, C12")
 add("C13", "explicit-state exploration of (observed file, project) states under single-file perturbations of the live parser, differential oracle",
-    "7 observed files x every set of <= 2 (thorough 4) of 28 other files x every single-file perturbation (add / drop / swap / replace in place) applied to the already validated live parser; all observations with equal (observed text, per-import registered?/kind) must be equal; kind changes must be observable (negative control).",
+    "7 observed files x every set of <= 2 (thorough 4) of 29 other files x every single-file perturbation (add / drop / swap / replace in place; quick tier, two-file bases: swap and replace-in-place alternate over the other files) applied to the already validated live parser; all observations with equal (observed text, per-import registered?/kind) must be equal; kind changes must be observable (negative control).",
     "trusted: hook H4 (Clone); violations re-confirmed by replaying both plain histories; for a key registered with two kinds the fact is the set of kinds",
     "DESIGN.md section 4, C13")
 add("C14", "bounded-exhaustive token-string exploration of malformed members in member frames against sibling-preservation and locality oracles",
